@@ -269,6 +269,13 @@ def search(ctx, boost=1, focus=()):
     n = (120 if ctx.tier == "thorough" else 24) * boost
     for k in range(n):
         q = gen(rng, k)
+        if k % 5 == 3:
+            # a search range that ends where the pattern ends (search == radius / outer radius): the pattern reaches the edge of its
+            # search window
+            pt_ = dict(q["pattern"])
+            pt_["search"] = float(pt_.get("radius_outer", pt_["radius"]))
+            q["pattern"] = pt_
+            ctx.count("frame_udfs_tight_search")
         msgs = run_case("frame_udfs", q)
         ctx.oracle_case("frame_udfs", q, msgs, nontrivial=len(q["partitions"]) > 1)
         ctx.count("zero_shift_mode_%d" % (k % 4))
